@@ -75,3 +75,27 @@ func Harness_C27_sound() {
 	}
 	assert(member, "proved-value-leaf-hash-is-in-the-list")
 }
+
+// Harness_C27_member_long: the same completeness claim at the var-bytes length boundary of the path format
+// (values of 252..254 bytes, where the length prefix switches from one byte to 0xfd + two bytes).
+func Harness_C27_member_long() {
+	n := 2
+	vals := make([][]byte, n)
+	hashes := make([]common.Uint256, n)
+	for i := 0; i < n; i++ {
+		vals[i] = nondetBytes("val", param("minlen")+nondetRange("vlen", 3))
+		hashes[i] = HashLeaf(vals[i])
+	}
+	root := TreeHasher{}.HashFullTreeWithLeafHash(append([]common.Uint256{}, hashes...))
+	k := nondetRange("k", n)
+	path, err := MerkleLeafPath(vals[k], append([]common.Uint256{}, hashes...))
+	assert(err == nil, "long-path-generated-for-member")
+	if err != nil {
+		return
+	}
+	got, perr := MerkleProve(path, root)
+	assert(perr == nil, "long-member-path-proves")
+	if perr == nil {
+		assert(len(got) == len(vals[k]) && bytesEq(got, vals[k]), "long-proved-value-is-the-member")
+	}
+}
